@@ -89,7 +89,7 @@ COVER_FLOORS = {
 }
 CELLS = [("interval", 1), ("interval", 2), ("triangle", 2), ("triangle", 2), ("triangle", 3), ("tetrahedron", 3)]
 SID_WEIGHT = {"everywhere": 1.0, "otherwise": 1.0, 1: 1.5, 2: -0.75, 3: 2.25}
-NW = 3  # world sets per case
+NW = 2  # world sets per case (both must agree for "held")
 
 
 # --------------------------------------------------------------------------------------- form values
@@ -172,7 +172,14 @@ class Outcome:
 
 def judge(ctx, expected, observed, wss):
     """expected(ws, B) / observed(ws, B) -> Result.  Three-valued verdict over the world sets."""
-    vs = [oracle.compare_once(expected, observed, ws) for ws in wss]
+    vs = []
+    for ws in wss:
+        try:
+            vs.append(oracle.compare_once(expected, observed, ws))
+        except Exception as ex:  # the interpreter itself failed (e.g. on a malformed result): undecided, and counted
+            ctx.count("oracle_error")
+            ctx.covered("oracle_errors", type(ex).__name__ + ": " + str(ex)[:80])
+            vs.append(oracle.Verdict("inconclusive", why="oracle-error: " + type(ex).__name__))
     count_verdicts(ctx, vs)
     kinds = [v.kind for v in vs]
     if any(k in ("input-structure", "input-ambiguous") for k in kinds):
@@ -322,6 +329,7 @@ def term(G, rng, depth, *lins):
 KIND_MENU = [
     ["a"], ["a"], ["a", "a"], ["a", "L"], ["a", "L"], ["a", "a", "L", "L"], ["aL"], ["aL"], ["aL", "a"], ["aL", "L"],
     ["a", "L", "M"], ["aL", "M"], ["a", "M"], ["L"], ["L", "L"], ["L", "M"], ["M"], ["Lu"], ["a", "L", "zero"], ["gat"],
+    ["sum"], ["sum"], ["sum", "a"], ["sum", "L"], ["sum", "M"],
 ]
 
 
@@ -404,7 +412,33 @@ def build(rng, family, cell, gdim, cplx):
                     vtop = vi if family != "split" else base.arg(sp.note["spaces"][0], 0)
                     integrand = ufl.replace(integrand, {vtop: 3 * vtop})
                     detail += "/3v"
-            sp.note["blocks"].append((i, j))
+            if kind == "a":
+                sp.note["blocks"].append((i, j))  # blocks of a_form (the purely bilinear pieces)
+        elif kind == "sum":
+            # terms of different arity under Sum nodes of ONE integrand, in several associations
+            ta, tl = term(G, rng, d, vi, uj), term(G, rng, d, vi)
+            shape = rng.choice(["a+L", "L+a", "a-L", "(a+L)*c", "a+(L+a)", "(L+a)+L", "a+L+M", "var(a+L)", "(a+L)/c"])
+            c = G.expr((), 1)
+            if shape == "a+L":
+                integrand = ta + tl
+            elif shape == "L+a":
+                integrand = tl + ta
+            elif shape == "a-L":
+                integrand = ta - tl
+            elif shape == "(a+L)*c":
+                integrand = (ta + tl) * c
+            elif shape == "a+(L+a)":
+                integrand = ta + (tl + term(G, rng, d, vi, uj))
+            elif shape == "(L+a)+L":
+                integrand = (tl + ta) + term(G, rng, d, vi)
+            elif shape == "a+L+M":
+                integrand = ta + tl + G.expr((), d)
+            elif shape == "var(a+L)":
+                integrand = ufl.variable(ta + tl) * c
+            else:
+                c0 = U.const((), 0)
+                integrand = (ta + tl) / (3 + (c0 * c0 if not cplx else ufl.real(c0 * ufl.conj(c0))))
+            detail = "sum:" + shape
         elif kind == "L":
             integrand = term(G, rng, d, vi)
             if family == "plain" and rng.random() < 0.4:
@@ -510,7 +544,7 @@ def shape_key(sp):
 def coarse_key(sp):
     """Mechanism class of the input for violation keys: are there terms that are only affine in the trial function?"""
     ks = {p[0].split(":")[0].split("/")[0] for p in sp.pieces}
-    if "aL" in ks:
+    if "aL" in ks or "sum" in ks:
         return "affine-terms"
     if "gat" in ks:
         return "gateaux-terms"
@@ -582,7 +616,7 @@ def check_parts(ctx, sp, F, wss, fields, tag=""):
     def M(ws, B):
         return PF("00", ws, B)
 
-    has_M = any(k.split(":")[0] in ("M", "gat") for k in sp.kinds()) or any(nonzero(M, ws) for ws in wss)
+    has_M = any(k.split(":")[0] in ("M", "gat") or k == "sum:a+L+M" for k in sp.kinds()) or any(nonzero(M, ws) for ws in wss)
     skey = coarse_key(sp) + tag
     ok_l, l = call(ctx, "lhs", lambda: lhs(F))
     ok_r, r = call(ctx, "rhs", lambda: rhs(F))
@@ -613,7 +647,7 @@ def check_parts(ctx, sp, F, wss, fields, tag=""):
                 return lincomb(B, [(1.5 * -2, CL("11", ws, B)), (1.5 * 0.5, CL("1b", ws, B)), (-0.75 * -2, CL("b1", ws, B)),
                                    (-0.75 * 0.5, CL("bb", ws, B))])
 
-            o2 = judge(ctx, combo, lambda ws, B: CL("mix", ws, B), wss[:2] + wss[:1])
+            o2 = judge(ctx, combo, lambda ws, B: CL("mix", ws, B), wss)
             res["lhs_bilinear"] = o2.verdict
             ctx.count(f"{o2.verdict}_lhs_bilinear")
             if o2.verdict == "violated":
@@ -628,7 +662,7 @@ def check_parts(ctx, sp, F, wss, fields, tag=""):
             def combo_r(ws, B):
                 return lincomb(B, [(1.5, CRh("10", ws, B)), (-0.75, CRh("bb", ws, B))])
 
-            o2 = judge(ctx, combo_r, lambda ws, B: CRh("mix", ws, B), wss[:2] + wss[:1])
+            o2 = judge(ctx, combo_r, lambda ws, B: CRh("mix", ws, B), wss)
             res["rhs_linear"] = o2.verdict
             ctx.count(f"{o2.verdict}_rhs_linear")
             if o2.verdict == "violated":
@@ -650,8 +684,8 @@ def check_parts(ctx, sp, F, wss, fields, tag=""):
                 is_zero_number(l) or is_zero_number(r)) else (l, r), "P(p,q)")
     if ok_s:
         CS0, CS1 = Cache(s[0], subs), Cache(s[1], subs)
-        o = judge(ctx, A, lambda ws, B: CS0("11", ws, B), wss[:2] + wss[:1])
-        o1 = judge(ctx, minusL, lambda ws, B: CS1("1b", ws, B), wss[:2] + wss[:1])
+        o = judge(ctx, A, lambda ws, B: CS0("11", ws, B), wss)
+        o1 = judge(ctx, minusL, lambda ws, B: CS1("1b", ws, B), wss)
         verdict = "violated" if "violated" in (o.verdict, o1.verdict) else (o.verdict if o.verdict == o1.verdict else "inconclusive")
         res["system"] = verdict
         ctx.count(f"{verdict}_system")
@@ -884,7 +918,7 @@ def localise(ctx, sp, wss, fields):
         sub.pieces = [(kind, it, sid, piece)]
         mute = _Mute(ctx)
         try:
-            r = check_parts(mute, sub, piece, wss[:2] + wss[:1], fields)
+            r = check_parts(mute, sub, piece, wss, fields)
         except Exception:
             continue
         if "violated" in r.values():
@@ -977,3 +1011,10 @@ def case(ctx, i, rng):
             ctx.covered("first_integrand_node_classes", c)
     else:
         ctx.count("case_undecided")
+
+
+def finish(ctx):
+    # an interpreter that fails often decides nothing: make the run BROKEN instead of quietly thin
+    n = ctx.counters.get("cases", 0)
+    if ctx.counters.get("oracle_error", 0) > max(5, 0.03 * n):
+        raise RuntimeError(f"oracle errors in {ctx.counters.get('oracle_error')} comparisons of {n} cases: {ctx.cover.get('oracle_errors')}")
